@@ -148,6 +148,17 @@ A = {a.name: a for a in [
     _a("tensor-consume(q,r)", "(consume, consume)(q, r)", T("q"), T("r")),
     _a("tensor-mixed(q,r)", "(h, consume)(q, r)", B("q"), T("r")),
     _a("capture(q)", "def k() -> None:\n    h(q)", ("XC", "q")),
+    # ONE place twice in the same call (lent twice, lent and moved): illegal whatever came before - and wherever the call
+    # stands (entry block, branch, loop body, after a join; place defined in this block or an earlier one)
+    _a("cx(q,q)", "cx(q, q)", ("XC", "q")),
+    _a("cx(q,r)", "cx(q, r)", B("q"), B("r")),
+    _a("lend-and-move(q,q)", "lm(q, q)", ("XC", "q")),
+    _a("move-and-lend(q,q)", "ml(q, q)", ("XC", "q")),
+    _a("cx(p,p)", "cx(p, p)", ("XC", "p")),
+    _a("cx(o,o)", "cx(o, o)", ("XC", "o")),
+    _a("cx(p,o)", "cx(p, o)", B("p"), B("o")),
+    _a("cx(s.f,s.f)", "cx(s.f, s.f)", ("XC", "sf")),
+    _a("cx(t[0],t[0])", "cx(t[0], t[0])", ("XC", "t0")),
     # arrays of qubits: elements can be lent but not moved out
     _a("qs=array(new,new)", "qs = array(qubit(), qubit())", P("a0"), P("a1")),
     _a("qs=array(q,r)", "qs = array(q, r)", T("q", "move"), T("r", "move"), P("a0"), P("a1")),
@@ -233,6 +244,12 @@ FAMILIES = {
                 _pick("r=pair()[0]", "r=pair()[1]", "r=triple()[1]", "r=triple()[2]", "r=mixed()[0]", "k=mixed()[1]", "r=mixed2()[1]",
                       "k=mixed2()[0]", "r=mks2().g", "r=mks2().f", "r=mks().f", "r=mkarr()[0]", "r=(q,new)[0]", "r=(1,q)[1]",
                       "consume(r)", "consume(q)", "return"), "None"),
+    "samecall": (_pick("q=new"),
+                 _pick("cx(q,q)", "lend-and-move(q,q)", "move-and-lend(q,q)", "cx(q,r)", "r=new", "h(q)", "consume(q)", "consume(r)",
+                       "q=new", "return"), "None"),
+    "samecall-places": (_pick("t=(new,new)", "s=S(new)"),
+                        _pick("cx(p,p)", "cx(o,o)", "cx(p,o)", "cx(s.f,s.f)", "cx(t[0],t[0])", "h(p)", "consume(o)", "consume_s(s)",
+                              "consume_t(t)", "return"), "None"),
     # thorough only
     "core+": (_pick("q=new"),
               _pick("q=new", "r=new", "h(q)", "h(r)", "consume(q)", "consume(r)", "r=q", "q=r",
@@ -248,10 +265,12 @@ def bounds(tier: str):
     if tier == "quick":
         return [("core", 4, 2), ("live", 4, 2), ("params", 3, 2), ("tuple", 3, 2),
                 ("struct", 3, 2), ("struct2", 3, 2), ("retq", 3, 2), ("balanced", 3, 2), ("exotic", 2, 1),
-                ("forms", 3, 2), ("tensor", 3, 2), ("arrays", 3, 2), ("project", 2, 1), ("retype", 5, 2)]
+                ("forms", 3, 2), ("tensor", 3, 2), ("arrays", 3, 2), ("project", 2, 1), ("retype", 5, 2),
+                ("samecall", 3, 2), ("samecall-places", 3, 2)]
     return [("core", 5, 3), ("live", 5, 3), ("params", 4, 3), ("tuple", 4, 2), ("struct", 4, 2),
             ("struct2", 4, 2), ("retq", 4, 3), ("balanced", 4, 3), ("core+", 4, 2), ("exotic", 3, 2),
-            ("forms", 4, 2), ("tensor", 4, 2), ("arrays", 4, 2), ("project", 3, 2), ("retype", 5, 3)]
+            ("forms", 4, 2), ("tensor", 4, 2), ("arrays", 4, 2), ("project", 3, 2), ("retype", 5, 3),
+            ("samecall", 4, 3), ("samecall-places", 4, 2)]
 
 
 def programs(tier: str):
@@ -427,12 +446,16 @@ def mkarr() -> array[qubit, 2]: ...
 @guppy.declare
 def ident(q: qubit @owned) -> qubit: ...
 @guppy.declare
+def lm(a: qubit, b: qubit @owned) -> None: ...
+@guppy.declare
+def ml(a: qubit @owned, b: qubit) -> None: ...
+@guppy.declare
 def app(f: Callable[[qubit], None], q: qubit) -> None: ...
 @guppy.declare
 def appo(f: Callable[[qubit @owned], None], q: qubit @owned) -> None: ...
 '''
 HEADER = (f"from {PRELUDE_MOD} import guppy, qubit, owned, h, S, S2, consume, consume_s, "
-          f"consume_u, borrow_s, consume_t, result, mkpair, mktriple, mkmixed, mkmixed2, mks2, mks, mkarr, ident, app, appo, array, barrier, cx, measure, discard_array, state_result\n")
+          f"consume_u, borrow_s, consume_t, result, mkpair, mktriple, mkmixed, mkmixed2, mks2, mks, mkarr, ident, lm, ml, app, appo, array, barrier, cx, measure, discard_array, state_result\n")
 
 
 def _ensure_prelude() -> None:
